@@ -24,6 +24,10 @@ def plan(tier):
     # total voting power = 2 (mod 3): the +2/3 threshold is not a multiple of the arithmetic used (5 -> more than 3.33, i.e. 4)
     p.sims.append((tm.Cfg('sim-lock-n3p122', [1, 2, 2], [1], max_round=2, max_height=2, nbyz=1, budget=4, own_first=False,
                           useful_only=True), n, 100))
+    # total voting power divisible by 3 (6): exactly two thirds (the Byzantine validator plus the heaviest one: 4 of 6) is NOT
+    # a polka and NOT a commit
+    p.sims.append((tm.Cfg('sim-lock-n3p123', [1, 2, 3], [1], max_round=2, max_height=2, nbyz=1, budget=4, own_first=False,
+                          useful_only=True), n, 100))
     # locks must survive restarts (WAL replay re-runs the handlers; the signer refuses to sign again what it signed before)
     p.sims.append((tm.Cfg('sim-lock-crash', [1, 1, 1, 1], [2], max_round=3, max_height=1, nbyz=1, budget=4, crashes=4,
                           crash_set=[1, 3, 4], own_first=False, useful_only=True, torn=True), n, 130))
